@@ -94,13 +94,34 @@ TEXT = {
           "advanced by exactly one (the received send is marked, the next queued send is next in line); for a non-token "
           "contract the refund of whatever is next in line is always accepted (it cannot fail for lack of funds), so no "
           "accepted call can wedge the inbox at the VM-skeleton level; the token contract (methods modelled) always has an "
-          "accepted outcome when the zero token standard has no storage entry. Tied to the code by the ledger stream "
-          "(every embedded method with generated ABI arguments; exact-refund monitor).",
+          "accepted outcome when the zero token standard has no storage entry. Kernel-checked on a line-by-line model of "
+          "the ABI decoder (vm/abi: UnpackMethod, UnpackEmptyMethod, Arguments.Unpack/UnpackValues, toGoType, "
+          "lengthPrefixPointsTo, forEachUnpack, readInteger/readBool/readFixedBytes) with every slice expression, every "
+          "64-bit int operation and every big.Int->int conversion explicit: for EVERY byte string (up to the runtime's "
+          "2^48 allocation limit) and every well-formed argument type list (any nesting of slices/arrays over "
+          "uintN/intN/bool/address/tokenStandard/hash/bytesN/bytes/string) the decoder returns a value or an error, never a "
+          "panic (abi_no_panic_general, by induction over the type AST); instantiated by decide on the generated table of "
+          "every method and every storage variable of every embedded ABI of the working tree (abi_no_panic, "
+          "abi_variables_no_panic); selectors are pairwise distinct per ABI; decoding the canonical encoding that every "
+          "ValidateSendBlock stores (Arguments.Pack of the decoded values) returns exactly those values for every "
+          "method of every embedded ABI (unpack_pack_partial + flat_signatures = receive_decodes_what_send_validated: the "
+          "second decode on the receive path, followed by DealWithErr in several methods, cannot fail). Tied to the code by three streams: ledger "
+          "(generated histories, exact-refund monitor), abi (real decoder and real ValidateSendBlock on canonical and "
+          "hostile encodings of every method, result + decoded values + re-packed bytes compared with the model) and "
+          "autoreceive (every contract x method x 0..3 sporks x four generators x template/gossip delivery; the "
+          "producer's calls made under recover; monitors: no panic or error on the receive path, exactly one receive, "
+          "status 1 or exact refund with byte-identical storage, every inbox drained).",
   "design_ref": "§3 C09",
-  "note": "Panic-freedom/termination of the Go methods and ABI decoder (T3-T5) is correspondence only in this round. The "
-          "model's applySend omits the destination contract's method lookup: in Go a refund to an embedded sender (empty "
-          "call data) is refused, so the refund-always-possible theorem transfers to the code for non-embedded senders only.",
-  "technique": "Lean 4 proof over the ledger state machine + differential replay of accepted blocks + exact-refund monitor",
+  "note": "Panic-freedom/termination of the Go method bodies (T4, T5) is by the autoreceive stream's monitors, not by "
+          "per-method Lean models. Known finding F18 (reproduced on the unchanged tree by the scenario "
+          "wrap-owned-unburnable): a contract-to-contract send with an amount whose receive fails cannot be refunded (the "
+          "refund to the sending contract has empty call data and is refused by applySend's method lookup); "
+          "GenerateAutoReceive then dereferences a nil block on the producer path. The ledger model's applySend omits that "
+          "method lookup, so refund_always_possible transfers to the code for non-embedded senders only. The decoder model "
+          "bounds slices by len where Go bounds by cap (model panic is necessary, not sufficient, for a Go panic).",
+  "technique": "Lean 4 proofs over the ledger state machine and over an executable model of the ABI decoder (induction "
+               "over the type AST, decide over generated signature tables) + differential replay (decoder results, decoded "
+               "values, re-packed bytes) + producer-path driver with model-free monitors",
  },
  "C03": {
   "text": "Supervisor.ApplyBlock (getContext, the nine checks of accountBlockVerifier.all, enoughPlasma/enoughFunds/"
